@@ -582,8 +582,17 @@ func redactExternalURL(rawURL string) string {
 	return u.String()
 }
 
-// batchMetadata extracts custom metadata from a record batch.
+// batchMetadata extracts custom metadata from a record batch. Arrow IPC
+// carries per-batch custom metadata on the record batch message, which the
+// reader surfaces through RecordBatchWithMetadata; that is where the log
+// level and location keys of a fetched stream's batches live. Schema-level
+// metadata is only a fallback.
 func batchMetadata(rec arrow.RecordBatch) arrow.Metadata {
+	if rb, ok := rec.(arrow.RecordBatchWithMetadata); ok {
+		if md := rb.Metadata(); md.Len() > 0 {
+			return md
+		}
+	}
 	if rec.Schema().HasMetadata() {
 		return rec.Schema().Metadata()
 	}
